@@ -800,8 +800,10 @@ def gcov_many_columns_stream(ctx, name, make, count=2, scores_invariant=True):
         base = np.asarray([[rng.gauss(0, 1) for _ in range(p)] for _ in range(n)])
         base[c:] += 3.0
         ref = None
-        for unit in (1.0, 1e-4, 1e4):
-            Xn = base * unit
+        for unit in (1.0, 1e-4, 1e4, "offset"):
+            # "offset": the unit-scale series on a common level of a million (the scores are invariant under a shift as well; a covariance computed from raw second
+            # moments instead of centred data loses its digits there)
+            Xn = base + 1e6 if unit == "offset" else base * unit
             inp = {"detector": name, "n": n, "p": p, "unit": unit, "planted_change": c, "seed_note": "40 gaussian columns, level shift of 3 sd in every column"}
             ctx.case({"gcov-wide": name, "it": it, "unit": unit}, nontrivial=True)
             ctx.count("many_columns_unit", str(unit))
